@@ -201,6 +201,35 @@ def implementation(args):
                     add("spelling:quantity-differs", "Quantity.parse(%r) gave %r, expected %s %s" % (mtext + " " + text, q, mval, expected))
     out["spellings"] = nspell
 
+    # (3b) whitespace is significant: a prefix symbol that is also a unit symbol (m, h, d, T, ...) followed by a unit
+    # symbol reads as ONE prefixed unit when written together and as the PRODUCT of two units when separated - whatever
+    # was parsed earlier in the process (half of the pairs are asked in one order, half in the other)
+    usym = {u.symbol: u for u in units}
+    both = [(pfx, usym[pfx.symbol]) for pfx in prefixes if pfx.symbol in usym]
+    pairs = [(pfx, pu, u) for pfx, pu in both for u in units if u.symbol.isalpha()]
+    rng.shuffle(pairs)
+    pairs = pairs[:max(200, budget // 10)]
+    out["juxtaposed"] = len(pairs)
+    for k, (pfx, pu, u) in enumerate(pairs):
+        together, apart = pfx.symbol + u.symbol, pfx.symbol + " " + u.symbol
+        try:
+            want_together = Unit.resolve_symbol(together)          # exact symbol first, then prefix + symbol (judged in (0))
+        except KeyError:
+            want_together = None
+        want_apart = pu * u
+        order = [(together, want_together), (apart, want_apart)]
+        if k % 2:
+            order.reverse()
+        for text, want in order + order[:1]:
+            out["n"] += 1
+            try:
+                got = Unit.parse(text)
+            except (ParseError, KeyError):
+                got = None
+            if got is not want:
+                add("spelling:whitespace-not-significant:%s" % ("together" if text == together else "apart"),
+                    "Unit.parse(%r) gave %s, expected %s (asked %s the other spelling)" % (text, got, want, "after" if (text, want) != order[0] else "before"))
+
     # (4) quantities: equal quantity back
     for _ in range(budget // 8):
         u = rng.choice(units)
